@@ -32,7 +32,7 @@ import tempfile
 import time
 from pathlib import Path
 
-from .. import core
+from .. import c20_client, core
 from ..core import Result
 
 REQUIRED_THEOREMS = [
@@ -1335,6 +1335,23 @@ def _load_corpus():
     return out
 
 
+CLIENT_RULE = (" || client side: one program = one real main process (python3-vt + numpy: real Parallel objects on the loky and "
+               "multiprocessing backends, get_memmapping_executor, ArrayMemmapForwardReducer through loky's pickler, "
+               "TemporaryResourcesManager, delete_folder, atexit callbacks) + its real tracker + 0..4 stand-in worker processes sharing "
+               "the pipe (real load_temporary_memmap + finalizers) + 8..36 (thorough ..70) operations; evaluation = one operation "
+               "after which status, the request sequence (ResourceTracker._send wrapped in every process) and every folder/file on "
+               "disk are compared with the model; non-trivial = a program in which a MAYBE_UNLINK or UNREGISTER was sent; "
+               "distinct by the program")
+
+
+def _client(ctx, res, n, salt, big=False, e2e=True):
+    core.use_repo()
+    progs = c20_client.corpus_programs() + c20_client.programs_for(ctx, n, salt, big=big)
+    c20_client.explore(ctx, res, progs, salt)
+    res.rule += CLIENT_RULE
+    return res
+
+
 def run(ctx):
     if ctx.replay:
         case = ctx.replay.get("case", {})
@@ -1344,13 +1361,17 @@ def run(ctx):
         if "usage" in case:
             core.use_repo()
             run_usage(ctx, res, case["usage"], 0)
+        if "client_program" in case:
+            core.use_repo()
+            c20_client.explore(ctx, res, [case["client_program"]], "replay")
         return res
     worlds = _load_corpus() + corpus_worlds()
     if ctx.thorough:
         worlds += _worlds(ctx, 3000, 300, 30, "main", big=True)
     else:
         worlds += _worlds(ctx, 200, 30, 4, "main")
-    return _explore(ctx, worlds, "w")
+    res = _explore(ctx, worlds, "w")
+    return _client(ctx, res, 1200 if ctx.thorough else 50, "main", big=ctx.thorough)
 
 
 def search(ctx, res):
@@ -1360,4 +1381,9 @@ def search(ctx, res):
         if wd:
             worlds.append(wd)
     worlds += _worlds(ctx, 500, 40, 6, "search", big=True)
-    return _explore(ctx, worlds, "s", usage=True)
+    out = _explore(ctx, worlds, "s", usage=True)
+    for d in res.divergences[:5]:
+        cp = d.get("case", {}).get("client_program") if isinstance(d.get("case"), dict) else None
+        if cp:
+            c20_client.explore(ctx, out, [cp], "sdiv")
+    return _client(ctx, out, 400, "search", big=True)
